@@ -284,6 +284,7 @@ pub fn all() -> Vec<Prop> {
                 b.push(Batch { engine: "pipe", mode: "bytes", runs: if t == "thorough" { 200_000 } else { 6000 } });
                 // All 2^16 mux header values in the thorough tier (run i sends header value i).
                 b.push(Batch { engine: "pipe", mode: "mux-header", runs: if t == "thorough" { 65536 } else { 4096 } });
+                b.push(Batch { engine: "pipe", mode: "muxflood", runs: if t == "thorough" { 20_000 } else { 300 } });
                 b
             },
             expected_probes: || vec![],
